@@ -12,6 +12,8 @@ SPEC = {
         {"name": "sys", "pkg": "./sys", "timeout_quick": 90, "search_cases": 6000},
         # a re-fire racing a resolve of the same alert: the group must end up with the version the provider stored (C14's engine)
         {"name": "putorder", "pkg": "./putorder", "search_cases": 400, "only": ["group_holds_stored_version"]},
+        # a resolved update posted together with an invalid alert is stored all the same (C13's engine: best-effort batches)
+        {"name": "ingest", "pkg": "./ingest", "search_cases": 8000, "quick_cases": 1500, "only": ["batch_best_effort"]},
     ],
     "rule": "random alert timelines (4 alerts in 2 groups: fire, heartbeat, explicit resolve, short time-outs, re-fire; silences created/expired) through the REAL mem.Alerts provider + Dispatcher + PipelineBuilder.New pipeline + nflog assembled as app/reloader.go does, under synctest virtual time; 1-2 integrations (send_resolved on/off) with scripted outcomes (ok / recoverable / unrecoverable / hang, latencies up to and beyond the flush deadline so that deliveries are in flight while alerts re-fire), log GC, dispatcher restarts (config reload); a recording stage observes every flush (tick, wall, alerts handed over, outcome, log entries); the driver predicts ticks, flush contents, sends, log entries, group deletion exactly (delivery instants are trace inputs) and evaluates the property predicates on the implementation's events; non-trivial = hits a tagged branch; distinct = distinct hash of the case's lines",
     "assumptions": [
